@@ -33,7 +33,7 @@ type Case struct {
 
 var rec = ev.New("C10", "c10.failstop",
 	"tgen programs (incl. loops over long inputs so that documents cross the 4 KiB and 8 KiB buffer boundaries) are compiled in batches; for each (program, arguments) the fault-free document D is rendered first, then a history of renders in the same process with one injected fault each: "+
-		"the writer failing at byte offset k (every k in [0,len] for documents <= 600 bytes; otherwise 0, len, +-3 around multiples of 4096 and 64 drawn offsets) in short-write and zero-write style, the context cancelled before the start, a (string,error) expression failing, the nested component parameter failing after j bytes; interleaved with fault-free renders. "+
+		"the writer failing at byte offset k (every k in [0,len] for documents <= 600 bytes; otherwise 0, len, +-3 around the first three multiples of 4096 and the last one, and 16 drawn offsets) in short-write and zero-write style, the context cancelled before the start, a (string,error) expression failing, the nested component parameter failing after j bytes; interleaved with fault-free renders, some of them into the caller's own long-lived bufio.Writers (4 KiB and 8 KiB, with emptied and warm buffer pools). "+
 		"Oracle: err == nil => the writer received exactly D; a fault => err != nil wrapping the injected cause (for expression errors a templ.Error with the file name and a line inside that expression), received bytes are a prefix of D, cancelled => zero bytes; every fault-free render after any failure yields exactly D. "+
 		"Non-trivial = writer fault with 0 < k < len(D), or expression/nested fault after >=1 byte was written, or a fault-free render directly after a failed one; distinct by (program, arguments, fault)")
 
@@ -156,11 +156,14 @@ func genSteps(t *rapid.T, a tgen.Args, docLen int, exhaustive bool) []step {
 		}
 	} else {
 		offsets = append(offsets, 0, docLen, max(0, docLen-1))
-		for m := 4096; m <= docLen+4; m += 4096 {
+		// around the first three buffer boundaries and the last one below the document's end
+		bounds := []int{4096, 8192, 12288, docLen / 4096 * 4096}
+		for _, m := range bounds {
+			if m <= 0 || m > docLen+4 {
+				continue
+			}
 			for d := -3; d <= 3; d++ {
-				if m+d >= 0 {
-					offsets = append(offsets, m+d)
-				}
+				offsets = append(offsets, m+d)
 			}
 		}
 		for i := 0; i < 16; i++ {
@@ -173,6 +176,21 @@ func genSteps(t *rapid.T, a tgen.Args, docLen int, exhaustive bool) []step {
 			plain()
 		}
 	}
+	// the caller's own long-lived bufio.Writers (a writer templ might be tempted to adopt), with
+	// emptied and warm buffer pools, interleaved with other destinations
+	bufio := func(slot int, gc bool) {
+		j := tbatch.Plain(0, a)
+		j.Bufio, j.GC = slot, gc
+		out = append(out, step{job: j, kind: "plain"})
+	}
+	bufio(1, true)
+	plain()
+	bufio(1, false)
+	bufio(2, true)
+	writer(max(0, docLen/2), false)
+	bufio(2, false)
+	bufio(1, false)
+	plain()
 	// other faults, interleaved with fault-free renders
 	j := tbatch.Plain(0, a)
 	j.Cancelled = true
@@ -196,7 +214,7 @@ var genBigArgs = rapid.Custom(func(t *rapid.T) tgen.Args {
 	a.Fail = false
 	switch rapid.IntRange(0, 3).Draw(t, "size") {
 	case 0:
-		a.N = rapid.SampledFrom([]int{50, 300, 700}).Draw(t, "bigN")
+		a.N = rapid.SampledFrom([]int{20, 60, 150}).Draw(t, "bigN")
 	case 1:
 		n := rapid.SampledFrom([]int{5, 40, 120}).Draw(t, "nxs")
 		a.XS = nil
